@@ -222,6 +222,13 @@ impl<W: 'static, R: 'static, T: 'static, V: Debug + 'static> XMapping<W, R, T, V
     }
 }
 
+#[cfg(feature = "verif")]
+impl<W, R, T, V> XMapping<W, R, T, V> {
+    pub(super) fn verif_len(&self) -> usize {
+        self.len
+    }
+}
+
 impl<W: 'static, R: 'static, T: 'static, V: Debug + 'static> XNativeValue for XMapping<W, R, T, V> {
     fn dyn_size(&self) -> usize {
         (self.inner.len() * size_of::<MappingBucket<W, R, T, V>>())
